@@ -71,26 +71,118 @@ theorem inUse_of {a a' : Alloc} {x : Nat} (h : InUse a x) (hd : x ∈ a'.data.fr
 
 /-! ### the state `Open` reads: `FileSt.reopen` / `FileSt.openAt` -/
 
-theorem rz_reopen_alloc (f : FileSt) : f.reopen.alloc = f.alloc.absorbOverflow := rfl
-theorem rz_reopen_walMap (f : FileSt) : f.reopen.walMap = f.walMap := rfl
-theorem rz_reopen_walPages (f : FileSt) : f.reopen.walPages = f.walPages := rfl
-theorem rz_reopen_disk (f : FileSt) : f.reopen.disk = f.disk := rfl
-theorem rz_reopen_root (f : FileSt) : f.reopen.root = f.root := rfl
-theorem rz_reopen_txid (f : FileSt) : f.reopen.txid = f.txid := rfl
+/-! ### the precise absorb rule (`FileSt.absorbP`, Model/AbsorbP.lean) -/
 
-/-- after reading the header of a bounded file in a state satisfying the invariant, the data end marker
-    is not below the meta end marker -/
-theorem rz_reopen_ends {f : FileSt} {live : List Nat} (h : EngInv f live) (hm : 0 < f.alloc.maxPages) :
-    f.reopen.alloc.mta.endMarker ≤ f.reopen.alloc.data.endMarker := by
-  rw [rz_reopen_alloc]
-  have h1 := h.noOv
-  have h2 := h.wf.limit
-  unfold Alloc.absorbOverflow
-  split
-  · exact Nat.le_refl _
-  · rename_i hc
-    show f.alloc.mta.endMarker ≤ f.alloc.data.endMarker
+theorem needAbsorb_iff (f : FileSt) : f.needAbsorb = true ↔
+    f.alloc.data.endMarker < f.alloc.mta.endMarker ∧
+    ∃ p ∈ f.metaPages, f.alloc.data.endMarker ≤ p ∧ p < f.alloc.mta.endMarker ∧
+      (f.alloc.maxPages = 0 ∨ p < f.alloc.maxPages) := by
+  unfold FileSt.needAbsorb
+  simp only [Bool.and_eq_true, decide_eq_true_eq, List.any_eq_true, Bool.or_eq_true, beq_iff_eq, and_assoc]
+
+theorem mem_metaPages (f : FileSt) (p : Nat) : p ∈ f.metaPages ↔ p ∈ f.alloc.mta.free ∨ p ∈ f.internal := by
+  unfold FileSt.metaPages FileSt.internal
+  simp only [List.mem_append]
+  constructor
+  · rintro (((h | h) | h) | h)
+    · exact Or.inl h
+    · exact Or.inr (Or.inr h)
+    · exact Or.inr (Or.inl (Or.inr h))
+    · exact Or.inr (Or.inl (Or.inl h))
+  · rintro (h | ((h | h) | h))
+    · exact Or.inl (Or.inl (Or.inl h))
+    · exact Or.inr h
+    · exact Or.inl (Or.inr h)
+    · exact Or.inl (Or.inl (Or.inr h))
+
+/-- what `absorbP` leaves alone, and the two possible values of the data end marker -/
+theorem absorbP_keeps (f : FileSt) :
+    f.absorbP.alloc.data.free = f.alloc.data.free ∧ f.absorbP.alloc.mta = f.alloc.mta ∧
+    f.absorbP.alloc.metaTotal = f.alloc.metaTotal ∧ f.absorbP.alloc.maxPages = f.alloc.maxPages ∧
+    f.absorbP.alloc.freelistPages = f.alloc.freelistPages ∧ f.absorbP.alloc.pageSize = f.alloc.pageSize ∧
+    f.absorbP.walMap = f.walMap ∧ f.absorbP.walPages = f.walPages ∧ f.absorbP.disk = f.disk ∧
+    f.absorbP.root = f.root ∧ f.absorbP.txid = f.txid ∧ f.absorbP.statData = f.statData ∧
+    ((f.needAbsorb = false ∧ f.absorbP = f) ∨
+     (f.needAbsorb = true ∧ f.alloc.data.endMarker < f.alloc.mta.endMarker ∧
+      f.absorbP.alloc.data.endMarker = f.alloc.mta.endMarker)) := by
+  unfold FileSt.absorbP
+  cases h : f.needAbsorb with
+  | false => simp
+  | true =>
+    have := ((needAbsorb_iff f).mp h).1
+    simp [this]
+
+theorem absorbP_metaPages (f : FileSt) : f.absorbP.metaPages = f.metaPages := by
+  obtain ⟨-, k2, -, -, k5, -, k7, k8, -⟩ := absorbP_keeps f
+  unfold FileSt.metaPages
+  rw [k2, k5, k7, k8]
+
+/-- after `absorbP` nothing is left to absorb: no meta page lies at or behind the data end marker, below the
+    meta end marker and in front of the limit -/
+theorem absorbP_needAbsorb (f : FileSt) : f.absorbP.needAbsorb = false := by
+  obtain ⟨-, k2, -, k4, -, -, -, -, -, -, -, -, hc⟩ := absorbP_keeps f
+  rcases hc with ⟨h0, he⟩ | ⟨-, -, hde⟩
+  · rw [he]; exact h0
+  · cases h : f.absorbP.needAbsorb with
+    | false => rfl
+    | true =>
+      have := ((needAbsorb_iff _).mp h).1
+      rw [hde, k2] at this
+      omega
+
+theorem absorbP_idem (f : FileSt) : f.absorbP.absorbP = f.absorbP := by
+  have h := absorbP_needAbsorb f
+  show (if f.absorbP.needAbsorb then _ else f.absorbP) = f.absorbP
+  rw [h]; rfl
+
+/-- `absorbP` does not change the larger of the two end markers (the extent of the file) -/
+theorem absorbP_max (f : FileSt) :
+    max f.absorbP.alloc.data.endMarker f.absorbP.alloc.mta.endMarker = max f.alloc.data.endMarker f.alloc.mta.endMarker ∧
+    f.alloc.data.endMarker ≤ f.absorbP.alloc.data.endMarker := by
+  obtain ⟨-, k2, -, -, -, -, -, -, -, -, -, -, hc⟩ := absorbP_keeps f
+  rw [k2]
+  rcases hc with ⟨-, he⟩ | ⟨-, hlt, hde⟩
+  · rw [he]; exact ⟨rfl, Nat.le_refl _⟩
+  · rw [hde]; omega
+
+theorem absorbP_openStat (f : FileSt) : f.absorbP.openStat = f.openStat := by
+  obtain ⟨k1, -, k3, -⟩ := absorbP_keeps f
+  unfold FileSt.openStat
+  rw [(absorbP_max f).1, k1, k3]
+
+theorem reopenP_eq (f : FileSt) : f.reopenP = f.absorbP.ws f.openStat := rfl
+
+theorem rz_reopen_walMap (f : FileSt) : f.reopenP.walMap = f.walMap := (absorbP_keeps f).2.2.2.2.2.2.1
+theorem rz_reopen_walPages (f : FileSt) : f.reopenP.walPages = f.walPages := (absorbP_keeps f).2.2.2.2.2.2.2.1
+theorem rz_reopen_disk (f : FileSt) : f.reopenP.disk = f.disk := (absorbP_keeps f).2.2.2.2.2.2.2.2.1
+theorem rz_reopen_root (f : FileSt) : f.reopenP.root = f.root := (absorbP_keeps f).2.2.2.2.2.2.2.2.2.1
+theorem rz_reopen_txid (f : FileSt) : f.reopenP.txid = f.txid := (absorbP_keeps f).2.2.2.2.2.2.2.2.2.2.1
+theorem rz_reopen_openStat (f : FileSt) : f.reopenP.openStat = f.openStat := absorbP_openStat f
+
+/-- under the relaxed invariant every meta page (free or in use) lies below the meta end marker and either
+    below the data end marker or at / beyond the limit: nothing a growing data area could run into -/
+theorem engInvR_metaPages {f : FileSt} {live : List Nat} (h : EngInvR f live) (p : Nat) (hp : p ∈ f.metaPages) :
+    p < f.alloc.mta.endMarker ∧
+    (p < f.alloc.data.endMarker ∨ (0 < f.alloc.maxPages ∧ f.alloc.maxPages ≤ p)) := by
+  rcases (mem_metaPages f p).mp hp with hp | hp
+  · exact (h.wfr.metaRange p hp).2
+  · exact (h.intOk p hp).2.1.2.2
+
+/-- hence the precise rule absorbs nothing on such a state -/
+theorem engInvR_needAbsorb {f : FileSt} {live : List Nat} (h : EngInvR f live) : f.needAbsorb = false := by
+  cases hn : f.needAbsorb with
+  | false => rfl
+  | true =>
+    obtain ⟨-, p, hp, h1, h2, h3⟩ := (needAbsorb_iff f).mp hn
+    have := (engInvR_metaPages h p hp).2
     omega
+
+theorem engInvR_absorbP {f : FileSt} {live : List Nat} (h : EngInvR f live) : f.absorbP = f := by
+  show (if f.needAbsorb then _ else f) = f
+  rw [engInvR_needAbsorb h]; rfl
+
+theorem engInvR_reopenP {f : FileSt} {live : List Nat} (h : EngInvR f live) : f.reopenP = f.ws f.openStat := by
+  rw [reopenP_eq, engInvR_absorbP h]
 
 /-- without an overflow area in use, a page in use lies below the data end marker -/
 theorem rz_inUse_lt {f : FileSt} {live : List Nat} (h : EngInv f live) {x : Nat} (hu : InUse f.alloc x) :
@@ -144,42 +236,44 @@ theorem rz_setMax_engInv {f : FileSt} {live : List Nat} (h : EngInv f live) (n :
     omega
   · exact h3
 
-/-- `absorbOverflow` (with the statistic recomputed) keeps the relaxed invariant -/
-theorem rz_reopen_engInvR {f : FileSt} {live : List Nat} (h : EngInvR f live) : EngInvR f.reopen live := by
-  obtain ⟨k1, k2, k3, k4, k5, k6⟩ := absorb_keeps f.alloc
-  have ea : f.reopen.alloc = f.alloc.absorbOverflow := rfl
-  have ei : f.reopen.internal = f.internal := by
-    unfold FileSt.internal; rw [ea, k5]; rfl
-  refine ⟨⟨?_, ?_, ?_, ?_, ?_, ?_, ?_⟩, h.keys, ?_, h.mapKey, h.mapInj, ?_, ei ▸ h.intNodup, ?_⟩
-  · rw [ea, k1]; exact h.wfr.ascData
-  · rw [ea, k2]; exact h.wfr.ascMeta
-  · rw [ea, k1]; intro x hx; have := h.wfr.dataRange x hx; omega
-  · rw [ea, k2, k4]; intro x hx; have := h.wfr.metaRange x hx; omega
-  · rw [ea, k1, k2]; exact h.wfr.disj
-  · rw [ea]; have := h.wfr.dataEnd; omega
-  · rw [ea, k2, k3]; exact h.wfr.total
-  · intro id hid
-    obtain ⟨a, b, c⟩ := h.liveOk id hid
-    exact ⟨a, by rw [ea]; omega, inUse_absorb _ _ c⟩
-  · intro x hx
-    rw [ei] at hx
-    obtain ⟨a, b, c⟩ := h.intOk x hx
-    exact ⟨a, inUse_absorb _ _ b, c⟩
-  · rw [ei, ea, k2, k3]; exact h.total
+/-- reopening keeps the relaxed invariant (nothing is absorbed, the statistic is recomputed) -/
+theorem rz_reopen_engInvR {f : FileSt} {live : List Nat} (h : EngInvR f live) : EngInvR f.reopenP live := by
+  rw [engInvR_reopenP h]
+  exact engInvR_congr h rfl rfl rfl
+
+/-- reopening keeps the invariant -/
+theorem rz_reopen_engInv {f : FileSt} {live : List Nat} (h : EngInv f live) : EngInv f.reopenP live := by
+  rw [engInvR_reopenP h.toR]
+  exact engInv_congr h rfl rfl rfl
+
+theorem rz_reopen_alloc {f : FileSt} {live : List Nat} (h : EngInvR f live) : f.reopenP.alloc = f.alloc := by
+  rw [engInvR_reopenP h]; rfl
 
 /-- `doGrowFile` keeps the invariant -/
 theorem rz_grow_engInv {f : FileSt} {live : List Nat} (h : EngInv f live) (n : Nat)
     (hn : n = 0 ∨ (0 < f.alloc.maxPages ∧ f.alloc.maxPages ≤ n)) : EngInv (f.resizeGrow n) live := by
-  have h1 : EngInv ({ f with alloc := { f.alloc with maxPages := n } } : FileSt) live :=
+  have h1 : EngInv ({ f with alloc := { f.alloc with maxPages := n }, txid := f.txid + 1 } : FileSt) live :=
     rz_setMax_engInv h n hn _ rfl rfl rfl
-  exact engInv_congr (engInv_reopen h1) rfl rfl rfl
+  unfold FileSt.resizeGrow FileSt.limitTx
+  rw [engInvR_absorbP h1.toR]
+  exact h1
 
 /-- `doGrowFile` with any new limit keeps the relaxed invariant -/
 theorem rz_grow_engInvR {f : FileSt} {live : List Nat} (h : EngInv f live) (n : Nat) :
     EngInvR (f.resizeGrow n) live := by
-  have h1 : EngInvR ({ f with alloc := { f.alloc with maxPages := n } } : FileSt) live :=
+  have h1 : EngInvR ({ f with alloc := { f.alloc with maxPages := n }, txid := f.txid + 1 } : FileSt) live :=
     rz_setMax_engInvR h n _ rfl rfl rfl
-  exact engInvR_congr (rz_reopen_engInvR h1) rfl rfl rfl
+  unfold FileSt.resizeGrow FileSt.limitTx
+  rw [engInvR_absorbP h1]
+  exact h1
+
+/-- on a state satisfying the invariant `doGrowFile` only sets the limit (and the txid) -/
+theorem rz_grow_eq {f : FileSt} {live : List Nat} (h : EngInv f live) (n : Nat) :
+    f.resizeGrow n = { f with alloc := { f.alloc with maxPages := n }, txid := f.txid + 1 } := by
+  have h1 : EngInvR ({ f with alloc := { f.alloc with maxPages := n }, txid := f.txid + 1 } : FileSt) live :=
+    rz_setMax_engInvR h n _ rfl rfl rfl
+  unfold FileSt.resizeGrow FileSt.limitTx
+  exact engInvR_absorbP h1
 
 /-- `FileSt.openAt` with the data end marker of the state keeps the relaxed invariant -/
 theorem rz_openAt_engInvR {f : FileSt} {live : List Nat} (h : EngInv f live) (n : Nat) :
@@ -187,6 +281,14 @@ theorem rz_openAt_engInvR {f : FileSt} {live : List Nat} (h : EngInv f live) (n 
   have h1 : EngInvR ({ f with alloc := { f.alloc with maxPages := n, data := { f.alloc.data with endMarker := f.alloc.data.endMarker } } } : FileSt) live :=
     rz_setMax_engInvR h n _ rfl rfl rfl
   exact rz_reopen_engInvR h1
+
+/-- … and only sets the limit and recomputes the statistic -/
+theorem rz_openAt_alloc {f : FileSt} {live : List Nat} (h : EngInv f live) (n : Nat) :
+    (f.openAt n f.alloc.data.endMarker).alloc = { f.alloc with maxPages := n } := by
+  have h1 : EngInvR ({ f with alloc := { f.alloc with maxPages := n, data := { f.alloc.data with endMarker := f.alloc.data.endMarker } } } : FileSt) live :=
+    rz_setMax_engInvR h n _ rfl rfl rfl
+  unfold FileSt.openAt
+  rw [rz_reopen_alloc h1]
 
 /-! ### no room at the end of the file: the allocator does not look at the exact limit
 
@@ -770,6 +872,11 @@ theorem rz_lastEnd_le (l : List Nat) (e : Nat) (h : ∀ x ∈ l, x < e) : lastEn
     show x + 1 ≤ e
     omega
 
+/-- `shrinkFile` on a state on which `initTxMaxSize` absorbs nothing: the limit is set, then the release step.
+    (`FileSt.resizeShrink` is this function on all states the theorems speak about, `rz_shrink_eq0`.) -/
+def FileSt.resizeShrink0 (g : FileSt) (n : Nat) : FileSt × ReleaseRes :=
+  ({ g with alloc := { g.alloc with maxPages := n }, txid := g.txid + 1 } : FileSt).releaseStep n
+
 /-- the frame of `initTxReleaseRegions`: only the allocator and the txid change -/
 theorem rz_releaseTx_frame (f : FileSt) :
     f.releaseTx.1.walMap = f.walMap ∧ f.releaseTx.1.walPages = f.walPages ∧ f.releaseTx.1.disk = f.disk ∧
@@ -779,9 +886,9 @@ theorem rz_releaseTx_frame (f : FileSt) :
   split <;> exact ⟨rfl, rfl, rfl, rfl⟩
 
 theorem rz_shrink_frame (f : FileSt) (n : Nat) :
-    (f.resizeShrink n).1.walMap = f.walMap ∧ (f.resizeShrink n).1.walPages = f.walPages ∧
-    (f.resizeShrink n).1.disk = f.disk ∧ (f.resizeShrink n).1.root = f.root := by
-  unfold FileSt.resizeShrink
+    (f.resizeShrink0 n).1.walMap = f.walMap ∧ (f.resizeShrink0 n).1.walPages = f.walPages ∧
+    (f.resizeShrink0 n).1.disk = f.disk ∧ (f.resizeShrink0 n).1.root = f.root := by
+  unfold FileSt.resizeShrink0 FileSt.releaseStep
   dsimp only
   split
   · have hf := rz_releaseTx_frame ({ f with alloc := { f.alloc with maxPages := n }, txid := f.txid + 1 } : FileSt)
@@ -790,39 +897,74 @@ theorem rz_shrink_frame (f : FileSt) (n : Nat) :
     cases res <;> exact hf
   · exact ⟨rfl, rfl, rfl, rfl⟩
 
+theorem rz_releaseStep_frame (f1 : FileSt) (n : Nat) :
+    (f1.releaseStep n).1.walMap = f1.walMap ∧ (f1.releaseStep n).1.walPages = f1.walPages ∧
+    (f1.releaseStep n).1.disk = f1.disk ∧ (f1.releaseStep n).1.root = f1.root := by
+  unfold FileSt.releaseStep
+  split
+  · have hf := rz_releaseTx_frame f1
+    generalize f1.releaseTx = r at hf
+    obtain ⟨f2, res⟩ := r
+    cases res <;> exact hf
+  · exact ⟨rfl, rfl, rfl, rfl⟩
+
+/-- the frame of `shrinkFile` (no invariant) -/
+theorem rz_shrinkNew_frame (g : FileSt) (n : Nat) :
+    (g.resizeShrink n).1.walMap = g.walMap ∧ (g.resizeShrink n).1.walPages = g.walPages ∧
+    (g.resizeShrink n).1.disk = g.disk ∧ (g.resizeShrink n).1.root = g.root := by
+  have h1 := rz_releaseStep_frame (g.limitTx n) n
+  obtain ⟨-, -, -, -, -, -, k7, k8, k9, k10, -⟩ :=
+    absorbP_keeps ({ g with alloc := { g.alloc with maxPages := n }, txid := g.txid + 1 } : FileSt)
+  exact ⟨h1.1.trans k7, h1.2.1.trans k8, h1.2.2.1.trans k9, h1.2.2.2.trans k10⟩
+
 /-- what `shrinkFile` needs of the state `g` the header was read into: with the new limit set, the relaxed
-    invariant holds, and the end markers of `g` are in order -/
+    invariant holds, the end markers of `g` are in order, and the free meta pages lie inside the data area -/
 structure ShrinkPre (g : FileSt) (live : List Nat) (n : Nat) : Prop where
   inv : EngInvR ({ g with alloc := { g.alloc with maxPages := n }, txid := g.txid + 1 } : FileSt) live
   ends : g.alloc.data.endMarker ≤ g.alloc.mta.endMarker ∨ g.alloc.data.endMarker ≤ 2
+  mlt : ∀ x ∈ g.alloc.mta.free, x < g.alloc.data.endMarker
+
+theorem rz_meta_lt {g : FileSt} {live : List Nat} (he : EngInv g live) : ∀ x ∈ g.alloc.mta.free, x < g.alloc.data.endMarker := by
+  intro x hx
+  have h1 := he.wf.metaRange x hx
+  have h2 := he.noOv
+  omega
 
 /-- a state satisfying the invariant, any new limit -/
 theorem ShrinkPre.ofEngInv {g : FileSt} {live : List Nat} (he : EngInv g live) (n : Nat) : ShrinkPre g live n :=
-  ⟨rz_setMax_engInvR he n _ rfl rfl rfl, he.ends⟩
+  ⟨rz_setMax_engInvR he n _ rfl rfl rfl, he.ends, rz_meta_lt he⟩
 
 theorem alloc_setMax_self (a : Alloc) (n : Nat) (h : a.maxPages = n) : ({ a with maxPages := n } : Alloc) = a := by
   subst h; rfl
 
-/-- a state satisfying the relaxed invariant that already carries the new limit -/
-theorem ShrinkPre.ofEngInvR {g : FileSt} {live : List Nat} {n : Nat} (he : EngInvR g live) (hm : g.alloc.maxPages = n)
-    (hends : g.alloc.data.endMarker ≤ g.alloc.mta.endMarker ∨ g.alloc.data.endMarker ≤ 2) : ShrinkPre g live n :=
-  ⟨engInvR_congr he (alloc_setMax_self _ _ hm) rfl rfl, hends⟩
+/-- `canReleaseRegions` holds for one of the areas: then the state has no gap and the data area reaches the limit
+    (`hgap`: no gap, or the data area ends within the new limit) -/
+theorem rz_can_hme {g : FileSt} {live : List Nat} {n : Nat} (he : ShrinkPre g live n)
+    (hgap : g.alloc.mta.endMarker ≤ g.alloc.data.endMarker ∨ g.alloc.data.endMarker ≤ n)
+    (hcan : (canRelease g.alloc.data n || canRelease g.alloc.mta n) = true) :
+    g.alloc.mta.endMarker ≤ g.alloc.data.endMarker ∧ n ≤ g.alloc.data.endMarker := by
+  simp only [canRelease, Bool.or_eq_true, Bool.and_eq_true, decide_eq_true_eq, beq_iff_eq] at hcan
+  rcases hcan with hc | hc
+  · omega
+  · have := rz_lastEnd_le g.alloc.mta.free g.alloc.data.endMarker he.mlt
+    omega
+
+/-- on such a state `initTxMaxSize` absorbs nothing: `shrinkFile` is `resizeShrink0` -/
+theorem rz_shrink_eq0 {g : FileSt} {live : List Nat} {n : Nat} (hp : ShrinkPre g live n) :
+    g.resizeShrink n = g.resizeShrink0 n := by
+  unfold FileSt.resizeShrink FileSt.limitTx FileSt.resizeShrink0
+  rw [engInvR_absorbP hp.inv]
 
 /-- `shrinkFile` (after the header of a bounded file was read) keeps the relaxed invariant -/
 theorem rz_shrink_engInvR {g : FileSt} {live : List Nat} {n : Nat} (he : ShrinkPre g live n)
-    (hme : g.alloc.mta.endMarker ≤ g.alloc.data.endMarker) (hn : 0 < n) :
-    EngInvR (g.resizeShrink n).1 live := by
+    (hgap : g.alloc.mta.endMarker ≤ g.alloc.data.endMarker ∨ g.alloc.data.endMarker ≤ n) (hn : 0 < n) :
+    EngInvR (g.resizeShrink0 n).1 live := by
   have h1 : EngInvR ({ g with alloc := { g.alloc with maxPages := n }, txid := g.txid + 1 } : FileSt) live := he.inv
-  unfold FileSt.resizeShrink
+  unfold FileSt.resizeShrink0 FileSt.releaseStep
   dsimp only
   split
   · rename_i hcan
-    have hfull : n ≤ g.alloc.data.endMarker := by
-      simp only [canRelease, Bool.or_eq_true, Bool.and_eq_true, decide_eq_true_eq] at hcan
-      rcases hcan with hc | hc
-      · exact Nat.le_of_lt hc.2
-      · have : n < g.alloc.mta.endMarker := hc.2
-        omega
+    obtain ⟨hme, hfull⟩ := rz_can_hme he hgap hcan
     have hpre : RelPre ({ g with alloc := { g.alloc with maxPages := n }, txid := g.txid + 1 } : FileSt).alloc :=
       ⟨h1.wfr, hme, hn, hfull, he.ends⟩
     have h2 := rz_releaseTx_engInvR h1 hpre
@@ -838,78 +980,76 @@ theorem rz_shrink_engInvR {g : FileSt} {live : List Nat} {n : Nat} (he : ShrinkP
 theorem rz_resizeWith_frame (f : FileSt) (k : RKind) (n : Nat) :
     (f.resizeWith k n).1.walMap = f.walMap ∧ (f.resizeWith k n).1.walPages = f.walPages ∧
     (f.resizeWith k n).1.disk = f.disk ∧ (f.resizeWith k n).1.root = f.root := by
+  have hA : ∀ g : FileSt, g.absorbP.walMap = g.walMap ∧ g.absorbP.walPages = g.walPages ∧ g.absorbP.disk = g.disk ∧
+      g.absorbP.root = g.root := by
+    intro g
+    obtain ⟨-, -, -, -, -, -, k7, k8, k9, k10, -⟩ := absorbP_keeps g
+    exact ⟨k7, k8, k9, k10⟩
+  have hR : ∀ g : FileSt, g.reopenP.walMap = g.walMap ∧ g.reopenP.walPages = g.walPages ∧ g.reopenP.disk = g.disk ∧
+      g.reopenP.root = g.root := fun g => hA g
   cases k
-  · exact ⟨rfl, rfl, rfl, rfl⟩
-  · exact ⟨rfl, rfl, rfl, rfl⟩
-  · exact ⟨rfl, rfl, rfl, rfl⟩
-  · exact rz_shrink_frame f.reopen n
-  · exact rz_shrink_frame (f.openAt n f.alloc.data.endMarker) n
+  · exact hR f
+  · exact hR _
+  · have h1 := hR f
+    have h2 := hA ({ f.reopenP with alloc := { f.reopenP.alloc with maxPages := n }, txid := f.reopenP.txid + 1 } : FileSt)
+    exact ⟨h2.1.trans h1.1, h2.2.1.trans h1.2.1, h2.2.2.1.trans h1.2.2.1, h2.2.2.2.trans h1.2.2.2⟩
+  · have h1 := hR f
+    have h2 := rz_shrinkNew_frame f.reopenP n
+    exact ⟨h2.1.trans h1.1, h2.2.1.trans h1.2.1, h2.2.2.1.trans h1.2.2.1, h2.2.2.2.trans h1.2.2.2⟩
+  · have h1 := hR ({ f with alloc := { f.alloc with maxPages := n, data := { f.alloc.data with endMarker := f.alloc.data.endMarker } } } : FileSt)
+    have h2 := rz_shrinkNew_frame (f.openAt n f.alloc.data.endMarker) n
+    exact ⟨h2.1.trans h1.1, h2.2.1.trans h1.2.1, h2.2.2.1.trans h1.2.2.1, h2.2.2.2.trans h1.2.2.2⟩
 
-/-- what `openWith` + `Options.Validate` guarantee about a decision, and — for a file without limit that gets
-    one (`boundShrink`) — the one thing the proofs need beyond the invariant: the file has no gap between
-    the end markers, or the gap lies below the new limit (then it is absorbed when the header is read) -/
+/-- what `openWith` + `Options.Validate` guarantee about a decision, and — for the two decisions that run
+    `shrinkFile` — the one thing the proofs need beyond the invariant: the file has no gap between its end
+    markers (the meta area ends inside the data area), or its data area ends within the new limit (then
+    nothing can be released from it) -/
 def RKind.pre (k : RKind) (f : FileSt) (n : Nat) : Prop :=
   match k with
-  | .shrink => 0 < f.alloc.maxPages ∧ 0 < n
-  | .boundShrink => 0 < n ∧ (f.alloc.mta.endMarker ≤ f.alloc.data.endMarker ∨ f.alloc.data.endMarker < n)
+  | .shrink => 0 < f.alloc.maxPages ∧ 0 < n ∧
+      (f.alloc.mta.endMarker ≤ f.alloc.data.endMarker ∨ f.alloc.data.endMarker ≤ n)
+  | .boundShrink => 0 < n ∧ (f.alloc.mta.endMarker ≤ f.alloc.data.endMarker ∨ f.alloc.data.endMarker ≤ n)
   | _ => True
 
-theorem absorb_de_cases (a : Alloc) :
-    (a.absorbOverflow.data.endMarker = a.data.endMarker ∨ a.absorbOverflow.data.endMarker = a.mta.endMarker) ∧
-    a.absorbOverflow.mta.endMarker = a.mta.endMarker := by
-  unfold Alloc.absorbOverflow
-  split
-  · exact ⟨Or.inr rfl, rfl⟩
-  · exact ⟨Or.inl rfl, rfl⟩
+theorem rz_openAt_max (f : FileSt) (n d : Nat) : (f.openAt n d).alloc.maxPages = n :=
+  (absorbP_keeps _).2.2.2.1
 
-/-- the end markers of the state read under another limit are in order -/
-theorem rz_openAt_ends_ord {f : FileSt} {live : List Nat} (he : EngInv f live) (n : Nat) :
-    (f.openAt n f.alloc.data.endMarker).alloc.data.endMarker ≤ (f.openAt n f.alloc.data.endMarker).alloc.mta.endMarker ∨
-    (f.openAt n f.alloc.data.endMarker).alloc.data.endMarker ≤ 2 := by
-  have h := he.ends
-  have hc := absorb_de_cases ({ f.alloc with maxPages := n, data := { f.alloc.data with endMarker := f.alloc.data.endMarker } } : Alloc)
-  have e1 : ({ f.alloc with maxPages := n, data := { f.alloc.data with endMarker := f.alloc.data.endMarker } } : Alloc).data.endMarker = f.alloc.data.endMarker := rfl
-  have e2 : ({ f.alloc with maxPages := n, data := { f.alloc.data with endMarker := f.alloc.data.endMarker } } : Alloc).mta.endMarker = f.alloc.mta.endMarker := rfl
-  rw [e1, e2] at hc
-  show ({ f.alloc with maxPages := n, data := { f.alloc.data with endMarker := f.alloc.data.endMarker } } : Alloc).absorbOverflow.data.endMarker ≤
-      ({ f.alloc with maxPages := n, data := { f.alloc.data with endMarker := f.alloc.data.endMarker } } : Alloc).absorbOverflow.mta.endMarker ∨
-      ({ f.alloc with maxPages := n, data := { f.alloc.data with endMarker := f.alloc.data.endMarker } } : Alloc).absorbOverflow.data.endMarker ≤ 2
-  omega
-
-/-- … and the data end marker is not below the meta end marker if there was no gap or it was absorbed -/
-theorem rz_openAt_ends (f : FileSt) (n : Nat)
-    (hg : f.alloc.mta.endMarker ≤ f.alloc.data.endMarker ∨ (0 < n ∧ f.alloc.data.endMarker < n) ∨ n = 0) :
-    (f.openAt n f.alloc.data.endMarker).alloc.mta.endMarker ≤ (f.openAt n f.alloc.data.endMarker).alloc.data.endMarker := by
-  show ({ f.alloc with maxPages := n, data := { f.alloc.data with endMarker := f.alloc.data.endMarker } } : Alloc).absorbOverflow.mta.endMarker ≤
-      ({ f.alloc with maxPages := n, data := { f.alloc.data with endMarker := f.alloc.data.endMarker } } : Alloc).absorbOverflow.data.endMarker
-  unfold Alloc.absorbOverflow
-  split
-  · exact Nat.le_refl _
-  · rename_i hc
-    show f.alloc.mta.endMarker ≤ f.alloc.data.endMarker
-    have hc' : ¬ (f.alloc.data.endMarker < f.alloc.mta.endMarker ∧ (n = 0 ∨ f.alloc.data.endMarker < n)) := hc
-    omega
-
-theorem rz_openAt_max (f : FileSt) (n d : Nat) : (f.openAt n d).alloc.maxPages = n := by
-  unfold FileSt.openAt
-  rw [rz_reopen_alloc]
-  exact (absorb_keeps _).2.2.2.1
+/-- a state satisfying the relaxed invariant that already carries the new limit -/
+theorem ShrinkPre.ofEngInvR {g : FileSt} {live : List Nat} {n : Nat} (he : EngInvR g live) (hm : g.alloc.maxPages = n)
+    (hends : g.alloc.data.endMarker ≤ g.alloc.mta.endMarker ∨ g.alloc.data.endMarker ≤ 2)
+    (hmlt : ∀ x ∈ g.alloc.mta.free, x < g.alloc.data.endMarker) : ShrinkPre g live n :=
+  ⟨engInvR_congr he (alloc_setMax_self _ _ hm) rfl rfl, hends, hmlt⟩
 
 theorem rz_openAt_shrinkPre {f : FileSt} {live : List Nat} (he : EngInv f live) (n : Nat) :
-    ShrinkPre (f.openAt n f.alloc.data.endMarker) live n :=
-  ShrinkPre.ofEngInvR (rz_openAt_engInvR he n) (rz_openAt_max f n _) (rz_openAt_ends_ord he n)
+    ShrinkPre (f.openAt n f.alloc.data.endMarker) live n := by
+  have ha := rz_openAt_alloc he n
+  apply ShrinkPre.ofEngInvR (rz_openAt_engInvR he n) (rz_openAt_max f n _)
+  · rw [ha]; exact he.ends
+  · rw [ha]; exact rz_meta_lt he
+
+theorem rz_reopen_shrinkPre {f : FileSt} {live : List Nat} (he : EngInv f live) (n : Nat) :
+    ShrinkPre f.reopenP live n := ShrinkPre.ofEngInv (rz_reopen_engInv he) n
+
+theorem rz_resizeWith_shrink_eq {f : FileSt} {live : List Nat} (he : EngInv f live) (n : Nat) :
+    f.resizeWith .shrink n = f.reopenP.resizeShrink0 n := rz_shrink_eq0 (rz_reopen_shrinkPre he n)
+
+theorem rz_resizeWith_boundShrink_eq {f : FileSt} {live : List Nat} (he : EngInv f live) (n : Nat) :
+    f.resizeWith .boundShrink n = (f.openAt n f.alloc.data.endMarker).resizeShrink0 n :=
+  rz_shrink_eq0 (rz_openAt_shrinkPre he n)
 
 /-- `Open` with a max-size update keeps the relaxed invariant -/
 theorem rz_resizeWith_engInvR {f : FileSt} {live : List Nat} (he : EngInv f live) (k : RKind) (n : Nat)
     (hk : k.pre f n) : EngInvR (f.resizeWith k n).1 live := by
   cases k
-  · exact (engInv_reopen he).toR
+  · exact (rz_reopen_engInv he).toR
   · exact rz_openAt_engInvR he n
-  · exact rz_grow_engInvR (engInv_reopen he) n
+  · exact rz_grow_engInvR (rz_reopen_engInv he) n
+  · obtain ⟨h1, h2, h3⟩ := hk
+    rw [rz_resizeWith_shrink_eq he n]
+    exact rz_shrink_engInvR (rz_reopen_shrinkPre he n) (by rw [rz_reopen_alloc he.toR]; exact h3) h2
   · obtain ⟨h1, h2⟩ := hk
-    exact rz_shrink_engInvR (ShrinkPre.ofEngInv (engInv_reopen he) n) (rz_reopen_ends he h1) h2
-  · obtain ⟨h1, h2⟩ := hk
-    exact rz_shrink_engInvR (rz_openAt_shrinkPre he n) (rz_openAt_ends f n (by omega)) h1
+    rw [rz_resizeWith_boundShrink_eq he n]
+    exact rz_shrink_engInvR (rz_openAt_shrinkPre he n) (by rw [rz_openAt_alloc he n]; exact h2) h1
 
 theorem rkindPages_shrink (old n : Nat) (h : rkindPages old n = .shrink) : 0 < n ∧ n < old := by
   unfold rkindPages at h
@@ -931,17 +1071,23 @@ theorem rkindPages_boundShrink (old n : Nat) (h : rkindPages old n = .boundShrin
     · cases h
     · split at h <;> cases h
 
-/-- the hypothesis of the theorems about `FileSt.resize`: a file WITHOUT limit that gets one has no gap between
-    its end markers, or the gap lies below the new limit. Bounded files, `n = 0`, and files whose meta area
-    ends inside the data area satisfy it (`resizeOK_of_bounded`, `resizeOK_of_noGap`). -/
+/-- the hypothesis of the theorems about `FileSt.resize`: when the update LOWERS the limit (`0 < n < old`, or a file
+    without limit gets one), the file has no gap between its end markers, or its data area ends within the
+    new limit. Growing / removing the limit needs nothing (`resizeOK_of_grow`); files whose meta area ends
+    inside the data area satisfy it (`resizeOK_of_noGap`). -/
 def ResizeOK (f : FileSt) (n : Nat) : Prop :=
-  f.alloc.maxPages = 0 → 0 < n → (f.alloc.mta.endMarker ≤ f.alloc.data.endMarker ∨ f.alloc.data.endMarker < n)
+  0 < n → (f.alloc.maxPages = 0 ∨ n < f.alloc.maxPages) →
+    (f.alloc.mta.endMarker ≤ f.alloc.data.endMarker ∨ f.alloc.data.endMarker ≤ n)
 
-theorem resizeOK_of_bounded (f : FileSt) (n : Nat) (h : 0 < f.alloc.maxPages ∨ n = 0) : ResizeOK f n := by
+theorem resizeOK_of_grow (f : FileSt) (n : Nat) (h : n = 0 ∨ (0 < f.alloc.maxPages ∧ f.alloc.maxPages ≤ n)) :
+    ResizeOK f n := by
   intro h0 hn; omega
 
 theorem resizeOK_of_noGap (f : FileSt) (n : Nat) (h : f.alloc.mta.endMarker ≤ f.alloc.data.endMarker) : ResizeOK f n :=
   fun _ _ => Or.inl h
+
+theorem resizeOK_of_fits (f : FileSt) (n : Nat) (h : f.alloc.data.endMarker ≤ n) : ResizeOK f n :=
+  fun _ _ => Or.inr h
 
 /-- the decision of `FileSt.resize` satisfies `RKind.pre` -/
 theorem rkindPages_pre (f : FileSt) (n : Nat) (hg : ResizeOK f n) : (rkindPages f.alloc.maxPages n).pre f n := by
@@ -950,9 +1096,9 @@ theorem rkindPages_pre (f : FileSt) (n : Nat) (hg : ResizeOK f n) : (rkindPages 
   · trivial
   · trivial
   · have := rkindPages_shrink _ _ hk
-    exact ⟨by omega, this.1⟩
+    exact ⟨by omega, this.1, hg this.1 (Or.inr this.2)⟩
   · have := rkindPages_boundShrink _ _ hk
-    exact ⟨this.2, hg this.1 this.2⟩
+    exact ⟨this.2, hg this.2 (Or.inl this.1)⟩
 
 theorem rz_resize_engInvR {f : FileSt} {live : List Nat} (he : EngInv f live) (n : Nat) (hg : ResizeOK f n) :
     EngInvR (f.resize n) live := by
@@ -1066,8 +1212,8 @@ theorem rz_releaseTx_max (f : FileSt) : f.releaseTx.1.alloc.maxPages = f.alloc.m
     · rw [ha]
     · exact rz_metaAllocRegions_max f.alloc _ k a1 st1 _ rfl hr
 
-theorem rz_shrink_max (f : FileSt) (n : Nat) : (f.resizeShrink n).1.alloc.maxPages = n := by
-  unfold FileSt.resizeShrink
+theorem rz_shrink_max (f : FileSt) (n : Nat) : (f.resizeShrink0 n).1.alloc.maxPages = n := by
+  unfold FileSt.resizeShrink0 FileSt.releaseStep
   dsimp only
   split
   · have hf := rz_releaseTx_max ({ f with alloc := { f.alloc with maxPages := n }, txid := f.txid + 1 } : FileSt)
@@ -1076,19 +1222,34 @@ theorem rz_shrink_max (f : FileSt) (n : Nat) : (f.resizeShrink n).1.alloc.maxPag
     cases res <;> exact hf
   · rfl
 
-theorem rz_grow_max (f : FileSt) (n : Nat) : (f.resizeGrow n).alloc.maxPages = n := by
-  unfold FileSt.resizeGrow
-  exact (absorb_keeps _).2.2.2.1
+theorem rz_grow_max (f : FileSt) (n : Nat) : (f.resizeGrow n).alloc.maxPages = n :=
+  (absorbP_keeps _).2.2.2.1
+
+theorem rz_releaseStep_max (f1 : FileSt) (n : Nat) : (f1.releaseStep n).1.alloc.maxPages = f1.alloc.maxPages := by
+  unfold FileSt.releaseStep
+  split
+  · have hf := rz_releaseTx_max f1
+    generalize f1.releaseTx = r at hf
+    obtain ⟨f2, res⟩ := r
+    cases res <;> exact hf
+  · rfl
+
+theorem rz_limitTx_max (f : FileSt) (n : Nat) : (f.limitTx n).alloc.maxPages = n :=
+  (absorbP_keeps _).2.2.2.1
+
+theorem rz_shrinkNew_max (f : FileSt) (n : Nat) : (f.resizeShrink n).1.alloc.maxPages = n := by
+  unfold FileSt.resizeShrink
+  rw [rz_releaseStep_max, rz_limitTx_max]
 
 /-- the in-memory limit after `Open`: the new limit, unless nothing was to be done -/
 theorem rz_resizeWith_max (f : FileSt) (k : RKind) (n : Nat) :
     (f.resizeWith k n).1.alloc.maxPages = (if k = .same then f.alloc.maxPages else n) := by
   cases k
-  · exact (absorb_keeps _).2.2.2.1
+  · exact (absorbP_keeps _).2.2.2.1
   · exact rz_openAt_max f n _
   · exact rz_grow_max _ n
-  · exact rz_shrink_max _ n
-  · exact rz_shrink_max _ n
+  · exact rz_shrinkNew_max _ n
+  · exact rz_shrinkNew_max _ n
 
 theorem rkindPages_same (old n : Nat) (h : rkindPages old n = .same) : n = old := by
   unfold rkindPages at h
@@ -1109,86 +1270,33 @@ theorem rz_resize_max (f : FileSt) (n : Nat) : (f.resize n).alloc.maxPages = n :
 
 /-! ### reopening after the update changes nothing -/
 
-theorem rz_noGap_absorb (a : Alloc) : NoGap a.absorbOverflow := by
-  unfold Alloc.absorbOverflow NoGap
-  split
-  · left; exact Nat.le_refl _
-  · rename_i hc
-    show a.mta.endMarker ≤ a.data.endMarker ∨ (0 < a.maxPages ∧ a.maxPages ≤ a.data.endMarker)
-    omega
-
-/-- `absorbOverflow` does not change the larger of the two end markers -/
-theorem rz_absorb_max (a : Alloc) :
-    max a.absorbOverflow.data.endMarker a.absorbOverflow.mta.endMarker = max a.data.endMarker a.mta.endMarker := by
-  unfold Alloc.absorbOverflow
-  split
-  · rename_i hc
-    show max a.mta.endMarker a.mta.endMarker = max a.data.endMarker a.mta.endMarker
-    omega
-  · rfl
-
-/-- a state without a gap whose statistic is the one `reportOpen` computes is a fixed point of reopening -/
-theorem rz_reopen_fix (f : FileSt) (hg : NoGap f.alloc) (hs : f.statData = f.openStat) : f.reopen = f := by
-  rw [reopen_ws f hg, ← hs]
+/-- a state on which nothing is absorbed and whose statistic is the one `reportOpen` computes is a fixed point
+    of reopening -/
+theorem rz_reopen_fix (f : FileSt) (hg : f.needAbsorb = false) (hs : f.statData = f.openStat) : f.reopenP = f := by
+  have : f.absorbP = f := by
+    show (if f.needAbsorb then _ else f) = f
+    rw [hg]; rfl
+  rw [reopenP_eq, this, ← hs]
   exact ws_self f
 
-theorem rz_reopen_openStat (f : FileSt) : f.reopen.openStat = f.openStat := by
-  obtain ⟨k1, k2, k3, -, -, -⟩ := absorb_keeps f.alloc
-  unfold FileSt.openStat
-  rw [rz_reopen_alloc, rz_absorb_max, k1, k3]
+theorem rz_reopen_stat (f : FileSt) : f.reopenP.statData = f.openStat := rfl
 
-theorem rz_reopen_stat (f : FileSt) : f.reopen.statData = f.openStat := rfl
-
-/-- reopening twice is reopening once -/
-theorem rz_reopen_reopen (f : FileSt) : f.reopen.reopen = f.reopen :=
-  rz_reopen_fix _ (rz_noGap_absorb _) (by rw [rz_reopen_openStat]; rfl)
-
-/-- the statistic after `doGrowFile` is the one a reopen computes -/
-theorem rz_grow_reopen (g : FileSt) (n : Nat) (hs : g.statData = g.openStat) : (g.resizeGrow n).reopen = g.resizeGrow n := by
+/-- reopening twice is reopening once (no hypothesis) -/
+theorem rz_reopen_reopen (f : FileSt) : f.reopenP.reopenP = f.reopenP := by
   apply rz_reopen_fix
-  · exact rz_noGap_absorb _
-  · obtain ⟨k1, k2, k3, -, -, -⟩ := absorb_keeps ({ g.alloc with maxPages := n } : Alloc)
-    show g.statData = _
-    rw [hs]
-    unfold FileSt.openStat FileSt.resizeGrow
-    dsimp only
-    rw [rz_absorb_max, k1, k3]
+  · show (f.absorbP.ws f.openStat).needAbsorb = false
+    exact absorbP_needAbsorb f
+  · rw [rz_reopen_openStat]; rfl
 
-theorem rz_releaseTx_done_noGap (f : FileSt) (f2 : FileSt) (he : RelPre f.alloc)
-    (hr : f.releaseTx = (f2, .done)) : NoGap f2.alloc := by
-  unfold FileSt.releaseTx at hr
-  dsimp only at hr
-  cases hc : fileCommitAlloc f.alloc (f.alloc.beginTx false 0) true with
-  | none => rw [hc] at hr; simp at hr
-  | some r =>
-    obtain ⟨a1, st1, cs⟩ := r
-    rw [hc] at hr
-    simp only [Prod.mk.injEq, and_true] at hr
-    subst hr
-    obtain ⟨hcs, hra⟩ := rz_release_alloc f.alloc a1 st1 cs he hc
-    generalize cs.allocRegions = regs at hcs hra
-    subst hcs
-    have hpos := he.pos
-    have hfull := he.full
-    have hde := hra.de
-    have hmx := hra.mx
-    have hme1 : a1.mta.endMarker ≤ a1.data.endMarker := by
-      have := hra.ok2.noOv
-      have := hra.ok.dEnd
-      have e1 : (a1.wm f.alloc.data.endMarker).maxPages = f.alloc.data.endMarker := rfl
-      have e2 : (a1.wm f.alloc.data.endMarker).mta.endMarker = a1.mta.endMarker := rfl
-      have e3 : (a1.wm f.alloc.data.endMarker).data.endMarker = a1.data.endMarker := rfl
-      omega
-    obtain ⟨-, -, c3, -, -, -, -⟩ := rz_commitState a1 st1 regs hra.fd hra.fm hme1 hra.ok.ascD hra.ok.ascM hra.ok.dRange
-      (fun y hy => ⟨(hra.ok.mOK y hy).1, (hra.ok.mOK y hy).2.1⟩) hra.ok.dEnd
-    have c3' := c3 (by omega)
-    unfold NoGap
-    right
-    show 0 < (a1.commit (commitState a1 st1 regs)).maxPages ∧
-      (a1.commit (commitState a1 st1 regs)).maxPages ≤ (a1.commit (commitState a1 st1 regs)).data.endMarker
-    rw [rz_commit_eq]
-    show 0 < a1.maxPages ∧ a1.maxPages ≤ (commitState a1 st1 regs).dataEnd
-    omega
+theorem rz_grow_stat (g : FileSt) (n : Nat) (hs : g.statData = g.openStat) :
+    (g.resizeGrow n).statData = (g.resizeGrow n).openStat := by
+  unfold FileSt.resizeGrow FileSt.limitTx
+  rw [absorbP_openStat, (absorbP_keeps _).2.2.2.2.2.2.2.2.2.2.2.1]
+  exact hs
+
+/-- `doGrowFile` leaves a fixed point of reopening (no invariant needed) -/
+theorem rz_grow_reopen (g : FileSt) (n : Nat) (hs : g.statData = g.openStat) : (g.resizeGrow n).reopenP = g.resizeGrow n :=
+  rz_reopen_fix _ (absorbP_needAbsorb _) (rz_grow_stat g n hs)
 
 theorem rz_releaseTx_not_done (f : FileSt) (f2 : FileSt) (res : ReleaseRes) (hw : WFR f.alloc)
     (hx : ∀ x ∈ f.alloc.mta.free, x < f.alloc.data.endMarker)
@@ -1206,50 +1314,49 @@ theorem rz_releaseTx_not_done (f : FileSt) (f2 : FileSt) (res : ReleaseRes) (hw 
     simp only [Prod.mk.injEq] at hr
     exact absurd hr.2.symm hnd
 
-/-- reopening the state `shrinkFile` leaves changes nothing -/
-theorem rz_shrink_reopen {g : FileSt} {live : List Nat} {n : Nat} (he : ShrinkPre g live n)
-    (hme : g.alloc.mta.endMarker ≤ g.alloc.data.endMarker) (hs : g.statData = g.openStat) (hn : 0 < n) :
-    (g.resizeShrink n).1.reopen = (g.resizeShrink n).1 := by
+/-- the statistic of the state `shrinkFile` leaves is the one a reopen computes -/
+theorem rz_shrink_stat {g : FileSt} {live : List Nat} {n : Nat} (he : ShrinkPre g live n)
+    (hs : g.statData = g.openStat) : (g.resizeShrink0 n).1.statData = (g.resizeShrink0 n).1.openStat := by
   have h1 : EngInvR ({ g with alloc := { g.alloc with maxPages := n }, txid := g.txid + 1 } : FileSt) live := he.inv
-  have hfix1 : ({ g with alloc := { g.alloc with maxPages := n }, txid := g.txid + 1 } : FileSt).reopen =
-      ({ g with alloc := { g.alloc with maxPages := n }, txid := g.txid + 1 } : FileSt) :=
-    rz_reopen_fix _ (Or.inl hme) hs
-  unfold FileSt.resizeShrink
+  unfold FileSt.resizeShrink0 FileSt.releaseStep
   dsimp only
   split
-  · rename_i hcan
-    have hfull : n ≤ g.alloc.data.endMarker := by
-      simp only [canRelease, Bool.or_eq_true, Bool.and_eq_true, decide_eq_true_eq] at hcan
-      rcases hcan with hc | hc
-      · exact Nat.le_of_lt hc.2
-      · have : n < g.alloc.mta.endMarker := hc.2
-        omega
-    have hpre : RelPre ({ g with alloc := { g.alloc with maxPages := n }, txid := g.txid + 1 } : FileSt).alloc :=
-      ⟨h1.wfr, hme, hn, hfull, he.ends⟩
-    cases hrt : ({ g with alloc := { g.alloc with maxPages := n }, txid := g.txid + 1 } : FileSt).releaseTx with
+  · cases hrt : ({ g with alloc := { g.alloc with maxPages := n }, txid := g.txid + 1 } : FileSt).releaseTx with
     | mk f2 res =>
       cases res
-      · rw [rz_releaseTx_not_done _ f2 _ h1.wfr (fun x hx => by have := (h1.wfr.metaRange x hx).2.1; exact Nat.lt_of_lt_of_le this hme) hrt (by simp)]
-        exact hfix1
-      · rw [rz_releaseTx_not_done _ f2 _ h1.wfr (fun x hx => by have := (h1.wfr.metaRange x hx).2.1; exact Nat.lt_of_lt_of_le this hme) hrt (by simp)]
-        exact hfix1
-      · exact rz_reopen_fix _ (rz_releaseTx_done_noGap _ f2 hpre hrt) rfl
-  · exact hfix1
+      · rw [rz_releaseTx_not_done _ f2 _ h1.wfr he.mlt hrt (by simp)]
+        exact hs
+      · rw [rz_releaseTx_not_done _ f2 _ h1.wfr he.mlt hrt (by simp)]
+        exact hs
+      · rfl
+  · exact hs
+
+/-- reopening the state `shrinkFile` leaves changes nothing -/
+theorem rz_shrink_reopen {g : FileSt} {live : List Nat} {n : Nat} (he : ShrinkPre g live n)
+    (hgap : g.alloc.mta.endMarker ≤ g.alloc.data.endMarker ∨ g.alloc.data.endMarker ≤ n) (hs : g.statData = g.openStat) (hn : 0 < n) :
+    (g.resizeShrink0 n).1.reopenP = (g.resizeShrink0 n).1 :=
+  rz_reopen_fix _ (engInvR_needAbsorb (rz_shrink_engInvR he hgap hn)) (rz_shrink_stat he hs)
+
+theorem rz_openAt_stat (f : FileSt) (n d : Nat) : (f.openAt n d).statData = (f.openAt n d).openStat := by
+  unfold FileSt.openAt
+  rw [rz_reopen_openStat]; rfl
 
 /-- reopening the state `Open` with a max-size update leaves changes nothing -/
 theorem rz_resizeWith_reopen {f : FileSt} {live : List Nat} (he : EngInv f live) (k : RKind) (n : Nat)
     (hk : k.pre f n) :
-    (f.resizeWith k n).1.reopen = (f.resizeWith k n).1 := by
+    (f.resizeWith k n).1.reopenP = (f.resizeWith k n).1 := by
   cases k
   · exact rz_reopen_reopen f
   · exact rz_reopen_reopen _
   · exact rz_grow_reopen _ n (by rw [rz_reopen_openStat]; rfl)
-  · obtain ⟨h1, h2⟩ := hk
-    exact rz_shrink_reopen (ShrinkPre.ofEngInv (engInv_reopen he) n) (rz_reopen_ends he h1)
+  · obtain ⟨h1, h2, h3⟩ := hk
+    rw [rz_resizeWith_shrink_eq he n]
+    exact rz_shrink_reopen (rz_reopen_shrinkPre he n) (by rw [rz_reopen_alloc he.toR]; exact h3)
       (by rw [rz_reopen_openStat]; rfl) h2
   · obtain ⟨h1, h2⟩ := hk
-    exact rz_shrink_reopen (rz_openAt_shrinkPre he n) (rz_openAt_ends f n (by omega))
-      (by unfold FileSt.openAt; rw [rz_reopen_openStat]; rfl) h1
+    rw [rz_resizeWith_boundShrink_eq he n]
+    exact rz_shrink_reopen (rz_openAt_shrinkPre he n) (by rw [rz_openAt_alloc he n]; exact h2)
+      (rz_openAt_stat f n _) h1
 
 /-! ### the extent of the file does not grow -/
 
@@ -1284,71 +1391,54 @@ theorem rz_releaseTx_extent (f : FileSt) (he : RelPre f.alloc)
     omega
 
 theorem rz_shrink_extent {g : FileSt} {live : List Nat} {n : Nat} (he : ShrinkPre g live n)
-    (hme : g.alloc.mta.endMarker ≤ g.alloc.data.endMarker) (hn : 0 < n) :
-    (g.resizeShrink n).1.alloc.data.endMarker ≤ g.alloc.data.endMarker ∧
-    (g.resizeShrink n).1.alloc.mta.endMarker ≤ g.alloc.data.endMarker := by
+    (hgap : g.alloc.mta.endMarker ≤ g.alloc.data.endMarker ∨ g.alloc.data.endMarker ≤ n) (hn : 0 < n) :
+    (g.resizeShrink0 n).1.alloc.data.endMarker ≤ g.alloc.data.endMarker ∧
+    (g.resizeShrink0 n).1.alloc.mta.endMarker ≤ max g.alloc.data.endMarker g.alloc.mta.endMarker := by
   have h1 : EngInvR ({ g with alloc := { g.alloc with maxPages := n }, txid := g.txid + 1 } : FileSt) live := he.inv
-  unfold FileSt.resizeShrink
+  unfold FileSt.resizeShrink0 FileSt.releaseStep
   dsimp only
   split
   · rename_i hcan
-    have hfull : n ≤ g.alloc.data.endMarker := by
-      simp only [canRelease, Bool.or_eq_true, Bool.and_eq_true, decide_eq_true_eq] at hcan
-      rcases hcan with hc | hc
-      · exact Nat.le_of_lt hc.2
-      · have : n < g.alloc.mta.endMarker := hc.2
-        omega
+    obtain ⟨hme, hfull⟩ := rz_can_hme he hgap hcan
     have hpre : RelPre ({ g with alloc := { g.alloc with maxPages := n }, txid := g.txid + 1 } : FileSt).alloc :=
       ⟨h1.wfr, hme, hn, hfull, he.ends⟩
-    have h2 := rz_releaseTx_extent _ hpre
-      (fun x hx => by have := (h1.wfr.metaRange x hx).2.1; exact Nat.lt_of_lt_of_le this hme)
+    have h2 := rz_releaseTx_extent _ hpre he.mlt
+    have h3 : ({ g with alloc := { g.alloc with maxPages := n }, txid := g.txid + 1 } : FileSt).alloc.data.endMarker = g.alloc.data.endMarker := rfl
+    rw [h3] at h2
     generalize ({ g with alloc := { g.alloc with maxPages := n }, txid := g.txid + 1 } : FileSt).releaseTx = r at h2
     obtain ⟨f2, res⟩ := r
-    cases res <;> exact h2
-  · exact ⟨Nat.le_refl _, hme⟩
+    cases res <;> exact ⟨h2.1, Nat.le_trans h2.2 (Nat.le_max_left _ _)⟩
+  · exact ⟨Nat.le_refl _, Nat.le_max_right _ _⟩
 
-/-- the end markers after the update never lie above the larger of the end markers before -/
+/-- the end markers after the update never lie above the larger of the end markers before (invariant states:
+    nothing is absorbed, the release only lowers them) -/
 theorem rz_resizeWith_extent {f : FileSt} {live : List Nat} (he : EngInv f live) (k : RKind) (n : Nat)
     (hk : k.pre f n) :
     (f.resizeWith k n).1.alloc.data.endMarker ≤ max f.alloc.data.endMarker f.alloc.mta.endMarker ∧
     (f.resizeWith k n).1.alloc.mta.endMarker ≤ max f.alloc.data.endMarker f.alloc.mta.endMarker := by
-  have ab : ∀ a : Alloc, a.absorbOverflow.data.endMarker ≤ max a.data.endMarker a.mta.endMarker ∧
-      a.absorbOverflow.mta.endMarker = a.mta.endMarker := by
-    intro a
-    have h1 := rz_absorb_max a
-    have h2 : a.absorbOverflow.mta = a.mta := (absorb_keeps a).2.1
-    rw [h2] at h1
-    exact ⟨by omega, by rw [h2]⟩
   cases k
-  · show f.alloc.absorbOverflow.data.endMarker ≤ _ ∧ f.alloc.absorbOverflow.mta.endMarker ≤ _
-    have := ab f.alloc; omega
-  · have := ab ({ f.alloc with maxPages := n, data := { f.alloc.data with endMarker := f.alloc.data.endMarker } } : Alloc)
-    exact ⟨this.1, by rw [show (f.resizeWith RKind.bound n).1.alloc.mta.endMarker = _ from this.2]; exact Nat.le_max_right _ _⟩
-  · have h1 := ab f.alloc
-    have h2 := ab ({ f.reopen.alloc with maxPages := n } : Alloc)
-    have e : ({ f.reopen.alloc with maxPages := n } : Alloc).data.endMarker = f.alloc.absorbOverflow.data.endMarker := rfl
-    have e' : ({ f.reopen.alloc with maxPages := n } : Alloc).mta.endMarker = f.alloc.absorbOverflow.mta.endMarker := rfl
-    rw [e, e'] at h2
-    show ({ f.reopen.alloc with maxPages := n } : Alloc).absorbOverflow.data.endMarker ≤ _ ∧
-      ({ f.reopen.alloc with maxPages := n } : Alloc).absorbOverflow.mta.endMarker ≤ _
+  · show f.reopenP.alloc.data.endMarker ≤ _ ∧ f.reopenP.alloc.mta.endMarker ≤ _
+    rw [rz_reopen_alloc he.toR]; omega
+  · show (f.openAt n f.alloc.data.endMarker).alloc.data.endMarker ≤ _ ∧ (f.openAt n f.alloc.data.endMarker).alloc.mta.endMarker ≤ _
+    rw [rz_openAt_alloc he n]
+    show f.alloc.data.endMarker ≤ _ ∧ f.alloc.mta.endMarker ≤ _
+    omega
+  · show (f.reopenP.resizeGrow n).alloc.data.endMarker ≤ _ ∧ (f.reopenP.resizeGrow n).alloc.mta.endMarker ≤ _
+    rw [rz_grow_eq (rz_reopen_engInv he) n]
+    show f.reopenP.alloc.data.endMarker ≤ _ ∧ f.reopenP.alloc.mta.endMarker ≤ _
+    rw [rz_reopen_alloc he.toR]; omega
+  · obtain ⟨k1, k2, k3⟩ := hk
+    have h2 := rz_shrink_extent (rz_reopen_shrinkPre he n) (by rw [rz_reopen_alloc he.toR]; exact k3) k2
+    rw [rz_reopen_alloc he.toR] at h2
+    rw [rz_resizeWith_shrink_eq he n]
     omega
   · obtain ⟨k1, k2⟩ := hk
-    have h1 := ab f.alloc
-    have h2 := rz_shrink_extent (ShrinkPre.ofEngInv (engInv_reopen he) n) (rz_reopen_ends he k1) k2
-    have e : f.reopen.alloc.data.endMarker = f.alloc.absorbOverflow.data.endMarker := rfl
-    rw [e] at h2
-    show (f.reopen.resizeShrink n).1.alloc.data.endMarker ≤ _ ∧ (f.reopen.resizeShrink n).1.alloc.mta.endMarker ≤ _
-    omega
-  · obtain ⟨k1, k2⟩ := hk
-    have h1 := ab ({ f.alloc with maxPages := n, data := { f.alloc.data with endMarker := f.alloc.data.endMarker } } : Alloc)
-    have h2 := rz_shrink_extent (rz_openAt_shrinkPre he n) (rz_openAt_ends f n (by omega)) k1
-    have e : (f.openAt n f.alloc.data.endMarker).alloc.data.endMarker =
-        ({ f.alloc with maxPages := n, data := { f.alloc.data with endMarker := f.alloc.data.endMarker } } : Alloc).absorbOverflow.data.endMarker := rfl
-    rw [e] at h2
-    have h1' : ({ f.alloc with maxPages := n, data := { f.alloc.data with endMarker := f.alloc.data.endMarker } } : Alloc).absorbOverflow.data.endMarker ≤
-        max f.alloc.data.endMarker f.alloc.mta.endMarker := h1.1
-    show ((f.openAt n f.alloc.data.endMarker).resizeShrink n).1.alloc.data.endMarker ≤ _ ∧
-      ((f.openAt n f.alloc.data.endMarker).resizeShrink n).1.alloc.mta.endMarker ≤ _
+    have h2 := rz_shrink_extent (rz_openAt_shrinkPre he n) (by rw [rz_openAt_alloc he n]; exact k2) k1
+    rw [rz_openAt_alloc he n] at h2
+    have h3 : ({ f.alloc with maxPages := n } : Alloc).data.endMarker = f.alloc.data.endMarker := rfl
+    have h4 : ({ f.alloc with maxPages := n } : Alloc).mta.endMarker = f.alloc.mta.endMarker := rfl
+    rw [h3, h4] at h2
+    rw [rz_resizeWith_boundShrink_eq he n]
     omega
 
 /-! ### the release is maximal for the data area -/
@@ -1410,20 +1500,15 @@ theorem rz_releaseTx_maximal (f f2 : FileSt) (he : RelPre f.alloc) (hr : f.relea
       exact h4 (by omega) y ys hys ⟨hl, by omega⟩
 
 theorem rz_shrink_maximal {g : FileSt} {live : List Nat} {n : Nat} (he : ShrinkPre g live n)
-    (hme : g.alloc.mta.endMarker ≤ g.alloc.data.endMarker) (hn : 0 < n)
-    (hd : (g.resizeShrink n).2 = .done) : canRelease (g.resizeShrink n).1.alloc.data n = false := by
+    (hgap : g.alloc.mta.endMarker ≤ g.alloc.data.endMarker ∨ g.alloc.data.endMarker ≤ n) (hn : 0 < n)
+    (hd : (g.resizeShrink0 n).2 = .done) : canRelease (g.resizeShrink0 n).1.alloc.data n = false := by
   have h1 : EngInvR ({ g with alloc := { g.alloc with maxPages := n }, txid := g.txid + 1 } : FileSt) live := he.inv
-  unfold FileSt.resizeShrink at hd ⊢
+  unfold FileSt.resizeShrink0 FileSt.releaseStep at hd ⊢
   dsimp only at hd ⊢
   split at hd
   · rename_i hcan
     rw [if_pos hcan]
-    have hfull : n ≤ g.alloc.data.endMarker := by
-      simp only [canRelease, Bool.or_eq_true, Bool.and_eq_true, decide_eq_true_eq] at hcan
-      rcases hcan with hc | hc
-      · exact Nat.le_of_lt hc.2
-      · have : n < g.alloc.mta.endMarker := hc.2
-        omega
+    obtain ⟨hme, hfull⟩ := rz_can_hme he hgap hcan
     have hpre : RelPre ({ g with alloc := { g.alloc with maxPages := n }, txid := g.txid + 1 } : FileSt).alloc :=
       ⟨h1.wfr, hme, hn, hfull, he.ends⟩
     cases hrt : ({ g with alloc := { g.alloc with maxPages := n }, txid := g.txid + 1 } : FileSt).releaseTx with
@@ -1437,62 +1522,26 @@ theorem rz_shrink_maximal {g : FileSt} {live : List Nat} {n : Nat} (he : ShrinkP
 
 /-! ### opening again from the header the update leaves -/
 
-def Alloc.setDE (a : Alloc) (d : Nat) : Alloc := { a with data := { a.data with endMarker := d } }
-
-/-- the data end marker `absorbOverflow` computes -/
-def absDE (mx d me : Nat) : Nat := if d < me ∧ (mx = 0 ∨ d < mx) then me else d
-
-theorem absorb_setDE (a : Alloc) :
-    a.absorbOverflow = a.setDE (absDE a.maxPages a.data.endMarker a.mta.endMarker) := by
-  unfold Alloc.absorbOverflow absDE Alloc.setDE
-  split <;> rfl
-
-/-- absorbing under the old limit first does not change what is absorbed under a raised / removed limit -/
-theorem absDE_grow (old n d me : Nat) (hn : n = 0 ∨ (0 < old ∧ old ≤ n)) :
-    absDE n (absDE old d me) me = absDE n d me := by
-  unfold absDE
-  split <;> split <;> (try split) <;> omega
-
-theorem fileSt_upd_eq (F : FileSt) (a : Alloc) (s : Nat) (ha : a = F.alloc) (hs : s = F.statData) :
-    ({ F with alloc := a, statData := s } : FileSt) = F := by
-  subst ha hs; rfl
-
 /-- opening a state with its own limit and data end marker is reopening it -/
 theorem rz_openAt_self (F : FileSt) (m : Nat) (h : m = F.alloc.maxPages) :
-    F.openAt m F.alloc.data.endMarker = F.reopen := by
+    F.openAt m F.alloc.data.endMarker = F.reopenP := by
   subst h; rfl
 
-/-- grow: the header keeps the old data end marker (`initTxMaxSize` copies the header) and carries the new
-    limit; an instance opened from it computes the state of the instance that performed the update -/
-theorem rz_grow_from_header (f : FileSt) (n : Nat) (hn : n = 0 ∨ (0 < f.alloc.maxPages ∧ f.alloc.maxPages ≤ n)) :
-    (f.reopen.resizeGrow n).openAt n f.alloc.data.endMarker = f.reopen.resizeGrow n := by
-  have hF : (f.reopen.resizeGrow n).alloc = (f.alloc.wm n).setDE
-      (absDE n (absDE f.alloc.maxPages f.alloc.data.endMarker f.alloc.mta.endMarker) f.alloc.mta.endMarker) := by
-    show ((f.alloc.absorbOverflow).wm n).absorbOverflow = _
-    rw [absorb_setDE f.alloc, absorb_setDE]
-    rfl
-  have hX : ((f.reopen.resizeGrow n).openAt n f.alloc.data.endMarker).alloc = (f.alloc.wm n).setDE
-      (absDE n f.alloc.data.endMarker f.alloc.mta.endMarker) := by
-    show (((f.reopen.resizeGrow n).alloc.wm n).setDE f.alloc.data.endMarker).absorbOverflow = _
-    rw [hF, absorb_setDE]
-    rfl
-  have hfix : (f.reopen.resizeGrow n).openAt n f.alloc.data.endMarker =
-      { f.reopen.resizeGrow n with alloc := ((f.reopen.resizeGrow n).openAt n f.alloc.data.endMarker).alloc,
-                                   statData := ((f.reopen.resizeGrow n).openAt n f.alloc.data.endMarker).statData } := rfl
-  rw [hfix]
-  apply fileSt_upd_eq
-  · rw [hX, hF, absDE_grow _ _ _ _ hn]
-  · show max f.alloc.data.endMarker (f.reopen.resizeGrow n).alloc.mta.endMarker - 2 - (f.reopen.resizeGrow n).alloc.metaTotal -
-      (f.reopen.resizeGrow n).alloc.data.free.length = f.openStat
-    rw [hF]
-    rfl
+/-- after an update transaction the header carries the limit and the data end marker of the updating instance:
+    an instance opened from it is that instance reopened -/
+theorem rz_from_header (f : FileSt) (k : RKind) (n d0 : Nat) (hk : k = .grow ∨ k = .shrink ∨ k = .boundShrink) :
+    (f.resizeWith k n).1.openAt n (hdrDataEndAfter d0 k (f.resizeWith k n)) = (f.resizeWith k n).1.reopenP := by
+  have hm := rz_resizeWith_max f k n
+  rcases hk with rfl | rfl | rfl
+  · exact rz_openAt_self _ n hm.symm
+  · exact rz_openAt_self _ n hm.symm
+  · exact rz_openAt_self _ n hm.symm
 
 theorem rz_shrink_not_done {g : FileSt} {live : List Nat} {n : Nat} (he : ShrinkPre g live n)
-    (hme : g.alloc.mta.endMarker ≤ g.alloc.data.endMarker)
-    (hnd : (g.resizeShrink n).2 ≠ .done) :
-    (g.resizeShrink n).1 = { g with alloc := { g.alloc with maxPages := n }, txid := g.txid + 1 } := by
+    (hnd : (g.resizeShrink0 n).2 ≠ .done) :
+    (g.resizeShrink0 n).1 = { g with alloc := { g.alloc with maxPages := n }, txid := g.txid + 1 } := by
   have h1 : EngInvR ({ g with alloc := { g.alloc with maxPages := n }, txid := g.txid + 1 } : FileSt) live := he.inv
-  unfold FileSt.resizeShrink at hnd ⊢
+  unfold FileSt.resizeShrink0 FileSt.releaseStep at hnd ⊢
   dsimp only at hnd ⊢
   split
   · rename_i hcan
@@ -1501,66 +1550,37 @@ theorem rz_shrink_not_done {g : FileSt} {live : List Nat} {n : Nat} (he : Shrink
     | mk f2 res =>
       rw [hrt] at hnd
       cases res
-      · exact rz_releaseTx_not_done _ f2 _ h1.wfr (fun x hx => by have := (h1.wfr.metaRange x hx).2.1; exact Nat.lt_of_lt_of_le this hme) hrt (by simp)
-      · exact rz_releaseTx_not_done _ f2 _ h1.wfr (fun x hx => by have := (h1.wfr.metaRange x hx).2.1; exact Nat.lt_of_lt_of_le this hme) hrt (by simp)
+      · exact rz_releaseTx_not_done _ f2 _ h1.wfr he.mlt hrt (by simp)
+      · exact rz_releaseTx_not_done _ f2 _ h1.wfr he.mlt hrt (by simp)
       · exact absurd rfl hnd
   · rfl
 
-/-- shrink: if the release transaction committed, the header carries the in-memory end markers; otherwise it
-    keeps the data end marker `d0` it had, which is the in-memory one if reading the header absorbed nothing.
-    In both cases an instance opened from the header computes the state of the instance that performed
-    the update. -/
-theorem rz_shrink_from_header_gen {g : FileSt} {live : List Nat} {n : Nat} (hp : ShrinkPre g live n)
-    (hme : g.alloc.mta.endMarker ≤ g.alloc.data.endMarker) (hs : g.statData = g.openStat) (hn : 0 < n) (d0 : Nat)
-    (hc : (g.resizeShrink n).2 = .done ∨ g.alloc.data.endMarker = d0) :
-    (g.resizeShrink n).1.openAt n (hdrDataEndAfter d0 (g.resizeShrink n)) = (g.resizeShrink n).1 := by
-  have hre := rz_shrink_reopen hp hme hs hn
-  have hde : hdrDataEndAfter d0 (g.resizeShrink n) = (g.resizeShrink n).1.alloc.data.endMarker := by
-    unfold hdrDataEndAfter
-    cases hres : (g.resizeShrink n).2 with
-    | done => rfl
-    | notRun =>
-      rcases hc with hc | hc
-      · rw [hres] at hc; cases hc
-      · dsimp only
-        have := rz_shrink_not_done hp hme (by rw [hres]; simp)
-        rw [this, ← hc]
-    | failed =>
-      rcases hc with hc | hc
-      · rw [hres] at hc; cases hc
-      · dsimp only
-        have := rz_shrink_not_done hp hme (by rw [hres]; simp)
-        rw [this, ← hc]
-  rw [hde, rz_openAt_self _ n (rz_shrink_max _ n).symm]
-  exact hre
+theorem rz_releaseTx_ran (f : FileSt) : f.releaseTx.2 ≠ .notRun := by
+  unfold FileSt.releaseTx
+  dsimp only
+  split <;> simp
 
-theorem rz_shrink_from_header {f : FileSt} {live : List Nat} (he : EngInv f live) (n : Nat)
-    (hold : 0 < f.alloc.maxPages) (hn : 0 < n)
-    (hc : (f.resizeWith .shrink n).2 = .done ∨ f.alloc.mta.endMarker ≤ f.alloc.data.endMarker) :
-    (f.resizeWith .shrink n).1.openAt n (hdrDataEndAfter f.alloc.data.endMarker (f.resizeWith .shrink n)) =
-      (f.resizeWith .shrink n).1 := by
-  apply rz_shrink_from_header_gen (ShrinkPre.ofEngInv (engInv_reopen he) n) (rz_reopen_ends he hold)
-    (by rw [rz_reopen_openStat]; rfl) hn
-  rcases hc with hc | hc
-  · exact Or.inl hc
-  · right
-    show f.alloc.absorbOverflow.data.endMarker = f.alloc.data.endMarker
-    rw [absorb_id _ (Or.inl hc)]
+/-- `shrinkFile` without release transaction leaves the state after `initTxMaxSize` (no invariant) -/
+theorem rz_shrinkNew_notRun (g : FileSt) (n : Nat) (h : (g.resizeShrink n).2 = .notRun) :
+    (g.resizeShrink n).1 = g.limitTx n := by
+  unfold FileSt.resizeShrink FileSt.releaseStep at h ⊢
+  split
+  · rename_i hcan
+    rw [if_pos hcan] at h
+    have hr := rz_releaseTx_ran (g.limitTx n)
+    generalize (g.limitTx n).releaseTx = r at h hr
+    obtain ⟨f2, res⟩ := r
+    cases res
+    · exact absurd rfl hr
+    · cases h
+    · cases h
+  · rfl
 
-/-- the same when a file without limit gets one (`boundShrink`) -/
-theorem rz_boundShrink_from_header {f : FileSt} {live : List Nat} (he : EngInv f live) (n : Nat) (hn : 0 < n)
-    (hg : f.alloc.mta.endMarker ≤ f.alloc.data.endMarker ∨ f.alloc.data.endMarker < n)
-    (hc : (f.resizeWith .boundShrink n).2 = .done ∨ f.alloc.mta.endMarker ≤ f.alloc.data.endMarker) :
-    (f.resizeWith .boundShrink n).1.openAt n (hdrDataEndAfter f.alloc.data.endMarker (f.resizeWith .boundShrink n)) =
-      (f.resizeWith .boundShrink n).1 := by
-  apply rz_shrink_from_header_gen (rz_openAt_shrinkPre he n) (rz_openAt_ends f n (by omega))
-    (by unfold FileSt.openAt; rw [rz_reopen_openStat]; rfl) hn
-  rcases hc with hc | hc
-  · exact Or.inl hc
-  · right
-    have := absorb_id ({ f.alloc with maxPages := n, data := { f.alloc.data with endMarker := f.alloc.data.endMarker } } : Alloc) (Or.inl hc)
-    show ({ f.alloc with maxPages := n, data := { f.alloc.data with endMarker := f.alloc.data.endMarker } } : Alloc).absorbOverflow.data.endMarker = f.alloc.data.endMarker
-    rw [this]
+/-- … which is a fixed point of reopening, for EVERY state whose statistic is the one `reportOpen` computes -/
+theorem rz_shrinkNew_notRun_reopen (g : FileSt) (n : Nat) (hs : g.statData = g.openStat)
+    (h : (g.resizeShrink n).2 = .notRun) : (g.resizeShrink n).1.reopenP = (g.resizeShrink n).1 := by
+  rw [rz_shrinkNew_notRun g n h]
+  exact rz_grow_reopen g n hs
 
 /-! ### the txid -/
 
@@ -1572,8 +1592,8 @@ theorem rz_releaseTx_txid (f : FileSt) : f.txid ≤ f.releaseTx.1.txid := by
   · exact Nat.le_succ _
 
 /-- `shrinkFile` commits at least the header-only transaction -/
-theorem rz_shrink_txid (g : FileSt) (n : Nat) : g.txid + 1 ≤ (g.resizeShrink n).1.txid := by
-  unfold FileSt.resizeShrink
+theorem rz_shrink_txid (g : FileSt) (n : Nat) : g.txid + 1 ≤ (g.resizeShrink0 n).1.txid := by
+  unfold FileSt.resizeShrink0 FileSt.releaseStep
   dsimp only
   split
   · have hf := rz_releaseTx_txid ({ g with alloc := { g.alloc with maxPages := n }, txid := g.txid + 1 } : FileSt)
@@ -1581,5 +1601,96 @@ theorem rz_shrink_txid (g : FileSt) (n : Nat) : g.txid + 1 ≤ (g.resizeShrink n
     obtain ⟨f2, res⟩ := r
     cases res <;> exact hf
   · exact Nat.le_refl _
+
+/-! ### no meta page in front of the data area -/
+
+/-- under the relaxed invariant no meta page (free or in use) lies at or behind the data end marker and in front
+    of the limit: a growing data area runs into none -/
+theorem rz_no_collision {F : FileSt} {live : List Nat} (h : EngInvR F live) (p : Nat) (hp : p ∈ F.metaPages) :
+    ¬ (F.alloc.data.endMarker ≤ p ∧ (F.alloc.maxPages = 0 ∨ p < F.alloc.maxPages)) := by
+  have := (engInvR_metaPages h p hp).2
+  omega
+
+/-- the same right after `absorbP`, for ANY state whose meta pages lie below the meta end marker (no invariant:
+    this is what the absorb rule is for, also with an overflow area in use) -/
+theorem rz_absorbP_no_collision (f : FileSt) (hm : ∀ p ∈ f.metaPages, p < f.alloc.mta.endMarker) (p : Nat)
+    (hp : p ∈ f.absorbP.metaPages) :
+    ¬ (f.absorbP.alloc.data.endMarker ≤ p ∧ (f.absorbP.alloc.maxPages = 0 ∨ p < f.absorbP.alloc.maxPages)) := by
+  have h0 := absorbP_needAbsorb f
+  have hmp := absorbP_metaPages f
+  have hme : f.absorbP.alloc.mta = f.alloc.mta := (absorbP_keeps f).2.1
+  rw [hmp] at hp
+  have hlt := hm p hp
+  intro hc
+  have : f.absorbP.needAbsorb = true := by
+    rw [needAbsorb_iff, hmp, hme]
+    exact ⟨by omega, p, hp, hc.1, hlt, hc.2⟩
+  rw [h0] at this
+  cases this
+
+/-! ### `growFile` on an arbitrary state (no invariant: an overflow area may be in use) -/
+
+theorem absorbP_de_cases (f : FileSt) :
+    f.alloc.data.endMarker ≤ f.absorbP.alloc.data.endMarker ∧
+    (f.absorbP.alloc.data.endMarker = f.alloc.data.endMarker ∨ f.absorbP.alloc.data.endMarker = f.alloc.mta.endMarker) := by
+  refine ⟨(absorbP_max f).2, ?_⟩
+  rcases (absorbP_keeps f).2.2.2.2.2.2.2.2.2.2.2.2 with ⟨-, he⟩ | ⟨-, -, hde⟩
+  · left; rw [he]
+  · right; exact hde
+
+/-- what `Open` with a raised / removed limit leaves of the allocator: free lists, meta area and limit as
+    expected; the data end marker is the old one or the meta end marker -/
+theorem rz_grow_fields (f : FileSt) (n : Nat) :
+    (f.reopenP.resizeGrow n).alloc.data.free = f.alloc.data.free ∧
+    (f.reopenP.resizeGrow n).alloc.mta = f.alloc.mta ∧
+    (f.reopenP.resizeGrow n).alloc.metaTotal = f.alloc.metaTotal ∧
+    (f.reopenP.resizeGrow n).alloc.maxPages = n ∧
+    f.alloc.data.endMarker ≤ (f.reopenP.resizeGrow n).alloc.data.endMarker ∧
+    ((f.reopenP.resizeGrow n).alloc.data.endMarker = f.alloc.data.endMarker ∨
+     (f.reopenP.resizeGrow n).alloc.data.endMarker = f.alloc.mta.endMarker) := by
+  obtain ⟨a1, a2, a3, -⟩ := absorbP_keeps f
+  obtain ⟨b1, b2, b3, -⟩ :=
+    absorbP_keeps ({ f.reopenP with alloc := { f.reopenP.alloc with maxPages := n }, txid := f.reopenP.txid + 1 } : FileSt)
+  obtain ⟨c1, c2⟩ := absorbP_de_cases f
+  obtain ⟨d1, d2⟩ :=
+    absorbP_de_cases ({ f.reopenP with alloc := { f.reopenP.alloc with maxPages := n }, txid := f.reopenP.txid + 1 } : FileSt)
+  have e1 : ({ f.reopenP with alloc := { f.reopenP.alloc with maxPages := n }, txid := f.reopenP.txid + 1 } : FileSt).alloc.data.endMarker =
+      f.absorbP.alloc.data.endMarker := rfl
+  have e2 : ({ f.reopenP with alloc := { f.reopenP.alloc with maxPages := n }, txid := f.reopenP.txid + 1 } : FileSt).alloc.mta =
+      f.absorbP.alloc.mta := rfl
+  rw [e1] at d1 d2
+  rw [e2, a2] at d2
+  refine ⟨?_, ?_, ?_, rz_grow_max _ n, Nat.le_trans c1 d1, ?_⟩
+  · show ({ f.reopenP with alloc := { f.reopenP.alloc with maxPages := n }, txid := f.reopenP.txid + 1 } : FileSt).absorbP.alloc.data.free = _
+    rw [b1]; exact a1
+  · show ({ f.reopenP with alloc := { f.reopenP.alloc with maxPages := n }, txid := f.reopenP.txid + 1 } : FileSt).absorbP.alloc.mta = _
+    rw [b2]; exact a2
+  · show ({ f.reopenP with alloc := { f.reopenP.alloc with maxPages := n }, txid := f.reopenP.txid + 1 } : FileSt).absorbP.alloc.metaTotal = _
+    rw [b3]; exact a3
+  · show ({ f.reopenP with alloc := { f.reopenP.alloc with maxPages := n }, txid := f.reopenP.txid + 1 } : FileSt).absorbP.alloc.data.endMarker = _ ∨
+      ({ f.reopenP with alloc := { f.reopenP.alloc with maxPages := n }, txid := f.reopenP.txid + 1 } : FileSt).absorbP.alloc.data.endMarker = _
+    rcases d2 with d2 | d2
+    · rcases c2 with c2 | c2
+      · left; rw [d2, c2]
+      · right; rw [d2, c2]
+    · right; exact d2
+
+
+theorem rz_releaseStep_txid (f1 : FileSt) (n : Nat) : f1.txid ≤ (f1.releaseStep n).1.txid := by
+  unfold FileSt.releaseStep
+  split
+  · have hf := rz_releaseTx_txid f1
+    generalize f1.releaseTx = r at hf
+    obtain ⟨f2, res⟩ := r
+    cases res <;> exact hf
+  · exact Nat.le_refl _
+
+/-- `shrinkFile` commits at least the header-only transaction (no invariant) -/
+theorem rz_shrinkNew_txid (g : FileSt) (n : Nat) : g.txid + 1 ≤ (g.resizeShrink n).1.txid := by
+  have h1 := rz_releaseStep_txid (g.limitTx n) n
+  have h2 : (g.limitTx n).txid = g.txid + 1 :=
+    (absorbP_keeps ({ g with alloc := { g.alloc with maxPages := n }, txid := g.txid + 1 } : FileSt)).2.2.2.2.2.2.2.2.2.2.1
+  rw [h2] at h1
+  exact h1
 
 end TxVerif
